@@ -79,7 +79,7 @@ impl Pass0Context {
             .segments
             .borrow()
             .iter()
-            .filter(|x| !x.borrow().is_empty())
+            .filter(|x| !x.borrow().is_empty() || x.borrow().address != 0)
             .map(|x| x.borrow().clone())
             .collect();
         let messages = self.messages.borrow().clone();
